@@ -9,6 +9,10 @@ import re
 import subprocess
 import sys
 import time
+import warnings
+
+warnings.simplefilter("ignore", SyntaxWarning)   # /repo has a '\[' in a non-raw string
+os.environ.setdefault("PYTHONWARNINGS", "ignore::SyntaxWarning")
 
 VERIF = os.path.dirname(os.path.dirname(os.path.abspath(__file__)))
 REPO = os.environ.get("VERIF_REPO", "/repo")
